@@ -70,7 +70,11 @@ func ReplaceColumn(oldName, newName string) Rule {
 
 // AddSelectStar returns a Rule that adds * to the SELECT columns.
 func AddSelectStar() Rule {
-	return AddColumn(&ast.Identifier{Name: "*"})
+	// A fresh node per application: a rule value may be applied to several
+	// trees, and trees must not share nodes (releasing one would reset the other's).
+	return RuleFunc(func(stmt ast.Statement) error {
+		return AddColumn(&ast.Identifier{Name: "*"}).Apply(stmt)
+	})
 }
 
 // columnMatches checks if a column expression matches the given name.
